@@ -78,9 +78,11 @@ func TestPlan(t *testing.T) {
 		// the binary leg of the formatter properties: `spok --fmt` on generated files
 		p.Rule = "binary leg: generated spokfiles (random layouts, comments in every position, side-effect-free loading) formatted in place by `spok --fmt` in the sandbox; the file afterwards is parsed in-process and judged by the same projection as the in-process leg (C11: a second --fmt leaves it byte-identical). Non-trivial: the file changed; distinct by source"
 		binShards("^TestFmtBinary$", 8, 40, 16, 600)
+		p.Shards = append(p.Shards, ev.ShardSpec{Name: "fmtboundary-0", Test: "^TestFmtBoundary$", TimeoutS: 900})
 	case "C06":
 		p.Rule = "binary leg: generated spokfiles (random layouts, comments, lines around 64 KiB) are handed to the real CLI as a file; what `spok --fmt` writes back is the rendering of the tree the CLI built, and must equal the rendering of the tree the parser builds from the same text in-process (so reading the file — encoding, line ends, long lines — loses or alters nothing). Non-trivial: the file changed; distinct by source"
 		binShards("^TestFmtBinary$", 8, 40, 16, 600)
+		p.Shards = append(p.Shards, ev.ShardSpec{Name: "fmtboundary-0", Test: "^TestFmtBoundary$", TimeoutS: 900})
 	case "C18":
 		p.Level = "fault_enumeration"
 		p.Rule = "binary leg: a task whose literal dependencies are regular / empty / directory / missing / dangling link / link / unreadable (mode 0) files in every mixture of up to 6, run through the CLI as an unprivileged user under {plain, --force, --json, --quiet}: spok never dies (signal, panic); with an unopenable dependency and no --force it stops with a message, exits non-zero and does not run the task; otherwise it succeeds"
@@ -601,6 +603,40 @@ func TestFmtBinary(t *testing.T) {
 		}
 		return execFmtBinary(id(), s, b, c)
 	})
+}
+
+// TestFmtBoundary: lines whose length crosses the 64 KiB mark when they are formatted (a '#' gains a
+// blank, a command its indentation, ':=' its blanks), every length around the mark, as a comment, a
+// string and a command, in a tight and in the formatted spelling.
+func TestFmtBoundary(t *testing.T) {
+	s := ev.Open(t, id())
+	b := newBox(t)
+	seen := map[string]bool{}
+	n := 0
+	for delta := 0; delta <= 14; delta++ {
+		long := strings.Repeat("x", 65536-delta)
+		for _, src := range []string{
+			"X := \"a\"\n#" + long + "\nAFTER := \"tail\"\n",
+			"X := \"a\"\n# " + long + "\nAFTER := \"tail\"\n",
+			"H:=\"" + long + "\"\nAFTER := \"tail\"\n",
+			"H := \"" + long + "\"\nAFTER := \"tail\"\n",
+			"task t() {\necho " + long + "\n}\nAFTER := \"tail\"\n",
+			"task t() {\n    echo " + long + "\n}\n\nAFTER := \"tail\"\n",
+			"task t(\"a\",\"" + long + "\") {\n}\n",
+		} {
+			n++
+			c := FmtCase{Src: src}
+			s.Eval()
+			s.Class("fmt_line_crossing_64KiB")
+			if f := execFmtBinary(id(), s, b, c); f != nil && !seen[f.Sig] {
+				seen[f.Sig] = true
+				s.Violation("fmtbin", f.Sig, f.Msg, f.Size, c)
+			}
+		}
+	}
+	if s.Failed() {
+		t.Fatal("violations recorded")
+	}
 }
 
 func TestFail(t *testing.T) {
